@@ -52,6 +52,35 @@ not so at first; the misses drove these additions:
 for r in rows:
     s += "| `%s` | %s | %s | %s |\n" % (r[0], r[1], r[2], "yes" if r[3] else "NO")
 
+# ---- behaviour-preserving rewrites
+eq = []
+for d in sorted(glob.glob(os.path.join(V, "seeded_equiv", "*"))):
+    m = json.load(open(d + "/meta.json"))
+    clean = lambda t, n: re.sub(r"\s+", " ", str(t)).replace("|", "/")[:n]
+    eq.append((os.path.basename(d), clean(m.get("summary", ""), 200), m.get("verdict", "?")))
+if eq:
+    quiet = sum(1 for e in eq if e[2] == "quiet")
+    tie = sum(1 for e in eq if e[2] == "tie-broken-no-failing-input")
+    bad = sum(1 for e in eq if e[2].startswith("ALARM"))
+    s += '''
+### Behaviour-preserving rewrites (must not produce a failing input)
+
+The converse experiment: fresh sub-agents (again given only the property text and a scratch worktree) produced %d realistic
+BEHAVIOUR-PRESERVING rewrites of the anchored code (loop restructuring, equivalent arithmetic, extracted helpers, hoisted
+locals, reworded messages, closed forms), each with a brute-force equivalence program.  Each was confirmed (suite unchanged)
+and the property's quick check was run against the rewritten tree (`tools/eval_equiv.sh`, kept under `seeded_equiv/`):
+**%d quiet (exit 0), %d reported as `VIOLATION … no-failing-input-found`, %d with a (false) failing input.**  The
+`no-failing-input-found` ones are rewrites of methods covered by the source translator (§5.1b): the regenerated Gallina term
+is no longer convertible/provably equal by the recorded proof, so a proof obligation fails while correspondence and oracles
+find nothing — exactly the situation the interface prescribes that line for.  The differential-execution tie itself is
+insensitive to how the code is written.
+
+| rewrite | what was rewritten | check verdict |
+|---|---|---|
+''' % (len(eq), quiet, tie, bad)
+    for e in eq:
+        s += "| `%s` | %s | %s |\n" % e
+
 # ---- §14 status per property
 kf = json.load(open(os.path.join(V, "known_findings.json")))["findings"]
 s += '''
